@@ -27,6 +27,9 @@ mod c19;
 mod c05net;
 mod cachemodel;
 mod common;
+mod procpar;
+mod net;
+mod ugen;
 mod refwire;
 mod refzone;
 mod util;
